@@ -362,24 +362,20 @@ func init() {
 			flagsF := c.field("chunkHeader", "flags")
 			encBits := map[string][]int64{}
 			want := 0
-			srcSeen := map[*ssa.Function]int{}
 			for _, a := range c.storesIn(encFn, flagsF) {
-				src := encFn
-				if call, ok := unconv(a.Val).(*ssa.Call); ok {
-					if sc := call.Call.StaticCallee(); sc != nil && c.P.inPkg(sc) && sc.Blocks != nil {
-						src = sc
-					}
-				}
-				srcSeen[src]++
 				want++
-			}
-			for src, n := range srcSeen {
-				bits := c.P.flagBitsEnc(src)
-				for f, ms := range bits {
-					if src == encFn {
-						encBits[f] = append(encBits[f], ms...)
-					} else {
-						for i := 0; i < n; i++ { // one helper serves n branches
+				for f, ms := range c.P.flagBitsOfValue(a.Val) {
+					// one mask per field per stored flags byte
+					if len(ms) >= 1 {
+						same := true
+						for _, m := range ms {
+							if m != ms[0] {
+								same = false
+							}
+						}
+						if same {
+							encBits[f] = append(encBits[f], ms[0])
+						} else {
 							encBits[f] = append(encBits[f], ms...)
 						}
 					}
